@@ -1004,7 +1004,9 @@ fn encode_semantic_tokens(doc: &AnalysisResult) -> Vec<SemanticToken> {
         data.push(SemanticToken {
             delta_line,
             delta_start,
-            length: tok.fragment.len() as u32,
+            // A token can not run past the end of its line, a multi line
+            // string is reported up to its first line break.
+            length: tok.fragment.split('\n').next().unwrap_or("").len() as u32,
             token_type,
             token_modifiers_bitset,
         });
